@@ -464,6 +464,77 @@ def zero_entries_body(c):
                               ["zero_entries"])
 
 
+def saturated_families():
+    """Elementwise functions at magnitudes where the value and the first derivative are representable and the true second derivative
+    underflows to zero: (function of (ns, x), list of domains for x)."""
+    return {
+        "tanh": (lambda ns, x: ns.tanh(x), [(360.0, 900.0), (-900.0, -360.0), (20.0, 300.0)]),
+        "arctan": (lambda ns, x: ns.arctan(x), [(1e180, 1e200), (-1e200, -1e180)]),
+        "arcsinh": (lambda ns, x: ns.arcsinh(x), [(1e180, 1e200), (-1e200, -1e180)]),
+        "logaddexp_x": (lambda ns, x: ns.logaddexp(x, 0.5), [(-900.0, -760.0), (760.0, 900.0)]),
+        "logaddexp_y": (lambda ns, x: ns.logaddexp(-0.25, x), [(-900.0, -760.0), (760.0, 900.0)]),
+        "logaddexp2_x": (lambda ns, x: ns.logaddexp2(x, 0.5), [(-1300.0, -1100.0), (1100.0, 1300.0)]),
+        "exp": (lambda ns, x: ns.exp(x), [(-900.0, -760.0)]),
+        "expm1": (lambda ns, x: ns.expm1(x), [(-900.0, -760.0)]),
+        "log1p": (lambda ns, x: ns.log1p(x), [(1e290, 1e300)]),
+        "log": (lambda ns, x: ns.log(x), [(1e290, 1e300)]),
+        "sqrt": (lambda ns, x: ns.sqrt(x), [(1e290, 1e300)]),
+        "reciprocal": (lambda ns, x: ns.reciprocal(x), [(1e180, 1e200), (-1e200, -1e180)]),
+        "divide": (lambda ns, x: 1.5 / x, [(1e180, 1e200), (-1e200, -1e180)]),
+        "power_neg2": (lambda ns, x: x ** -2.0, [(1e100, 1e120), (-1e120, -1e100)]),
+    }
+
+
+_SF = {}
+
+
+def saturated_body(c):
+    """Second derivatives at saturated / extreme (but regular) arguments: every construction returns a finite result, and all agree that
+    the second derivative has underflowed to zero (a closed form that overflows on the way gives nan or inf instead)."""
+    import warnings
+
+    import autograd.numpy as anp
+
+    if not _SF:
+        _SF.update(saturated_families())
+    names = sorted(_SF)
+    fam = names[c.int(0, len(names) - 1)]
+    f, doms = _SF[fam]
+    lo, hi = doms[c.int(0, len(doms) - 1)]
+    shape = c.choice([(), (3,), (2, 2)])
+    vseed = c.seed()
+    u01 = (values.generic(vseed, [shape], 0.0, 1.0)[0][0])
+    x0 = onp.asarray(lo + (hi - lo) * u01)
+    if fam == "tanh" and lo == 20.0:
+        x0 = x0 * onp.where(values.direction(vseed, shape, 9) > 0, 1.0, -1.0)
+    w = values.direction(vseed, shape, 3)
+    u, v = values.direction(vseed, shape, 4), values.direction(vseed, shape, 5)
+    sample = {"family": fam, "x": onp.asarray(x0).tolist(), "vseed": vseed}
+    bucket = lambda k: f"C07|saturated|{fam}|{k}"
+    c.features.update(family=fam)
+    with warnings.catch_warnings():
+        warnings.simplefilter("ignore")
+        y0 = onp.asarray(f(onp, x0))
+        if not onp.all(onp.isfinite(y0)):
+            return Outcome("numpy_rejects", detail="non-finite value", sample=sample)
+        phi = lambda x: anp.sum(f(anp, x) * w)
+        res = hvps(phi, x0 if shape else onp.float64(x0), u, v, lambda r: r)  # (a Python float would raise OverflowError in x ** 2)
+    bad = []
+    for k, r in res.items():
+        if isinstance(r, Exception):
+            if "not defined" in str(r):
+                continue
+            return fail("unexpected_exception", f"{k}: {type(r).__name__}: {r}"[:300], bucket("exception"), sample=sample)
+        ra = onp.asarray(r, dtype=float)
+        if not onp.all(onp.isfinite(ra)):
+            bad.append(f"{k} is not finite ({ra.tolist()})")
+        elif float(onp.max(onp.abs(ra), initial=0.0)) > (1e-100 if not (fam == "tanh" and lo == 20.0) else 1e-12):
+            bad.append(f"{k} = {ra.tolist()}, expected an underflowed zero")
+    if bad:
+        return fail("nonfinite", f"{fam} at {onp.asarray(x0).tolist()}: " + "; ".join(bad), bucket("second_order"), sample=sample)
+    return ok(nontrivial=True, key=json.dumps([fam, lo, list(shape)]), labels=["saturated", "family=" + fam], sample=sample)
+
+
 def tests():
     out = []
     for name, t in sorted(TEMPLATES.items()):
@@ -473,6 +544,7 @@ def tests():
     out.append(Test("hvp:programs", _prog_body, quick=400, thorough=6000, shard_size=100))
     out.append(Test("mixed_partials", mixed_body, quick=400, thorough=3000, shard_size=100))
     out.append(Test("zero_entries", zero_entries_body, quick=1500, thorough=10000, shard_size=150))
+    out.append(Test("saturated", saturated_body, quick=1200, thorough=8000, shard_size=150))
     out.append(Test("order3", partial(high_order_body, 3), quick=300, thorough=5000, shard_size=100))
     out.append(Test("order4", partial(high_order_body, 4), quick=150, thorough=3000, shard_size=60))
     return out
